@@ -75,6 +75,7 @@ def _mk_viol(m):
 def _chunks(ctx, files, max_lines):
     """Split the shard traces into part files of at most max_lines lines."""
     parts, n_events = [], 0
+    ctx.corrupt_events = 0
     for f in files:
         k, cur, fo = 0, 0, None
         with open(f) as fi:
@@ -88,6 +89,8 @@ def _chunks(ctx, files, max_lines):
                     fo = open(p, "w")
                     parts.append(p)
                 fo.write(ln)
+                if '"wf":false' in ln:
+                    ctx.corrupt_events += 1
                 cur += 1
                 n_events += 1
         if fo:
@@ -237,7 +240,7 @@ def run(ctx):
         "traces_validated_against_impl": n_events,
         "class_strings": n_cases[0],
         "fonts": rep.get("fonts"),
-        "jobs_on_corrupted_fonts": rep.get("jobs", 0) - 0,
+        "events_on_corrupted_fonts": ctx.corrupt_events,
         "harness_counters": rep,
         "non_conforming_events": len(mism) - len(seen),
         "distinct_violation_keys": len(by_key),
